@@ -471,4 +471,225 @@ Section Refine.
       unfold unprocessed in *. rewrite Hppc, Hscr. exact S9.
   Qed.
 
+  (* ---- a receive *)
+  Lemma recv_views st st' i c s x q :
+    nth_error (g_reqs st) i = Some c -> r_sub c = Some s -> ms_queue s = x :: q ->
+    g_reqs st' = set_nth i (recv_req c s x q) (g_reqs st) ->
+    (sub_at st' i, got_at st' i) = lstep (sub_at st i, got_at st i) LRecv /\
+    forall j, j <> i -> sub_at st' j = sub_at st j /\ got_at st' j = got_at st j.
+  Proof.
+    intros Hc Hs Hq Hreqs. split.
+    - unfold sub_at, got_at. rewrite Hreqs, (rq_put _ _ _ _ _ Hc), Nat.eqb_refl, Hc, Hs.
+      cbn [recv_req r_sub r_got lstep]. unfold sub_recv. cbn [fst snd]. rewrite Hq. reflexivity.
+    - intros j Hj. apply Nat.eqb_neq in Hj. unfold sub_at, got_at. rewrite Hreqs, (rq_put _ _ _ _ _ Hc), Hj. auto.
+  Qed.
+
+  (* ... committed at once: no event in flight, or the subscription has not been offered it yet *)
+  Lemma ser_recv_log st st' i c s x q :
+    RegInv st -> SerInv st ->
+    nth_error (g_reqs st) i = Some c -> r_pc c = RDone -> r_sub c = Some s -> ms_queue s = x :: q ->
+    (forall e todo, inflight st = Some (e, todo) -> memb i todo = true) ->
+    g_reqs st' = set_nth i (recv_req c s x q) (g_reqs st) ->
+    g_log st' = g_log st ++ [(TCons i, XRecv (index_of i (g_order st)))] -> g_tail st' = g_tail st ->
+    g_order st' = g_order st -> g_hub st' = g_hub st -> g_ppc st' = g_ppc st -> g_script st' = g_script st ->
+    SerInv st'.
+  Proof.
+    intros R [S1 S2 S3 S4 S5 S6 S7 S8 S9] Hc Hpc Hs Hq Hin Hreqs Hlog Htail Hord Hhub Hppc Hscr.
+    assert (Hio : In i (g_order st)).
+    { apply (ri_order _ R). exists c. split; [exact Hc|]. unfold registered, linearized. rewrite Hpc, Hs. reflexivity. }
+    set (p := index_of i (g_order st)) in *.
+    assert (Hp : nth_error (g_order st) p = Some i) by (apply index_of_nth, Hio).
+    assert (Hinf' : inflight st' = inflight st) by (unfold inflight; rewrite Hppc; reflexivity).
+    assert (HC : Cof st' = xstep first kept (Cof st) (XRecv p)) by (apply (Cof_snoc st st' _ Hlog)).
+    destruct (recv_views st st' i c s x q Hc Hs Hq Hreqs) as [Hme Hoth].
+    constructor.
+    - rewrite Hinf', Htail. exact S1.
+    - apply (valid_snoc st st' _ Hlog S2). exact I.
+    - rewrite HC, xstep_hub, Hhub. exact S3.
+    - rewrite HC, xstep_pend, Hinf'. unfold pend_of. rewrite Hppc. exact S4.
+    - rewrite HC, xstep_nsubs, Hord. exact S5.
+    - intros p' j Hp'. rewrite Hord in Hp'. destruct (S6 p' j Hp') as [v [Hv Hr]].
+      exists (lrun v (lown1 p' (XRecv p))). split; [rewrite HC; apply xview_step; exact Hv|].
+      unfold after in *. rewrite Hinf', Htail. cbn [lown1].
+      destruct (Nat.eq_dec j i) as [->|Hji].
+      + assert (p' = p) by (apply (nodup_nth_inj _ _ _ _ (ri_nodup _ R) Hp' Hp)). subst p'.
+        rewrite Nat.eqb_refl. rewrite Hme.
+        destruct (inflight st) as [[e todo]|] eqn:Hinf.
+        * rewrite (Hin e todo eq_refl) in *. cbn [lrun fold_left] in *. rewrite Hr. reflexivity.
+        * cbn [lrun fold_left] in *. rewrite Hr. reflexivity.
+      + assert (Hpp : Nat.eqb p p' = false).
+        { apply Nat.eqb_neq. intros ->. rewrite Hp in Hp'. congruence. }
+        rewrite Hpp. cbn [lrun fold_left]. destruct (Hoth j Hji) as [-> ->]. exact Hr.
+    - rewrite Htail, Hord, Hinf'. exact S7.
+    - intros p' j Hp'. rewrite Hord in Hp'. apply (reg_extend st st' _ Hlog); [|apply (S8 p' j Hp')].
+      rewrite Hreqs. apply (reqs_same_req st i c); [exact Hc | reflexivity].
+    - rewrite Hlog, map_app, blocks_app. cbn [map snd blocks flat_map]. rewrite app_nil_r.
+      unfold unprocessed in *. rewrite Hppc, Hscr. exact S9.
+  Qed.
+
+  (* ... logged after the event in flight: the subscription has been offered it already *)
+  Lemma ser_recv_tail st st' i c s x q e todo :
+    RegInv st -> SerInv st ->
+    nth_error (g_reqs st) i = Some c -> r_pc c = RDone -> r_sub c = Some s -> ms_queue s = x :: q ->
+    inflight st = Some (e, todo) -> memb i todo = false ->
+    g_reqs st' = set_nth i (recv_req c s x q) (g_reqs st) ->
+    g_log st' = g_log st -> g_tail st' = g_tail st ++ [(TCons i, XRecv (index_of i (g_order st)))] ->
+    g_order st' = g_order st -> g_hub st' = g_hub st -> g_ppc st' = g_ppc st -> g_script st' = g_script st ->
+    SerInv st'.
+  Proof.
+    intros R [S1 S2 S3 S4 S5 S6 S7 S8 S9] Hc Hpc Hs Hq Hinf Hm Hreqs Hlog Htail Hord Hhub Hppc Hscr.
+    assert (Hio : In i (g_order st)).
+    { apply (ri_order _ R). exists c. split; [exact Hc|]. unfold registered, linearized. rewrite Hpc, Hs. reflexivity. }
+    set (p := index_of i (g_order st)) in *.
+    assert (Hp : nth_error (g_order st) p = Some i) by (apply index_of_nth, Hio).
+    assert (Hinf' : inflight st' = inflight st) by (unfold inflight; rewrite Hppc; reflexivity).
+    assert (HC : Cof st' = Cof st) by (unfold Cof; rewrite Hlog; reflexivity).
+    destruct (recv_views st st' i c s x q Hc Hs Hq Hreqs) as [Hme Hoth].
+    constructor.
+    - rewrite Hinf', Hinf. discriminate.
+    - rewrite Hlog. exact S2.
+    - rewrite HC, Hhub. exact S3.
+    - rewrite HC, Hinf'. unfold pend_of. rewrite Hppc. exact S4.
+    - rewrite HC, Hord. exact S5.
+    - intros p' j Hp'. rewrite Hord in Hp'. destruct (S6 p' j Hp') as [v [Hv Hr]].
+      exists v. split; [rewrite HC; exact Hv|].
+      unfold after in *. rewrite Hinf', Htail. rewrite Hinf in *. rewrite map_app, lown_app. cbn [map snd lown flat_map].
+      rewrite app_nil_r.
+      destruct (Nat.eq_dec j i) as [->|Hji].
+      + assert (p' = p) by (apply (nodup_nth_inj _ _ _ _ (ri_nodup _ R) Hp' Hp)). subst p'.
+        rewrite Nat.eqb_refl. rewrite Hm in *. rewrite Hme.
+        change (LPush e :: lown p (map snd (g_tail st)) ++ [LRecv]) with ((LPush e :: lown p (map snd (g_tail st))) ++ [LRecv]).
+        rewrite lrun_app, Hr. reflexivity.
+      + assert (Hpp : Nat.eqb p p' = false).
+        { apply Nat.eqb_neq. intros ->. rewrite Hp in Hp'. congruence. }
+        rewrite Hpp, app_nil_r. destruct (Hoth j Hji) as [-> ->]. exact Hr.
+    - rewrite Htail, Hord, Hinf', Hinf. intros en Hen. apply in_app_iff in Hen. destruct Hen as [Hen|[<-|[]]].
+      + destruct (S7 en Hen) as [j [He [Hj Hno]]]. exists j. split; [exact He|]. split; [exact Hj|].
+        intros e' todo' Hi. apply (Hno e' todo'). rewrite Hinf. exact Hi.
+      + exists i. split; [reflexivity|]. split; [exact Hio|]. intros e' todo' Hi. inversion Hi; subst. exact Hm.
+    - intros p' j Hp'. rewrite Hord in Hp'. apply (reg_extend st st' []); [rewrite Hlog, app_nil_r; reflexivity | |apply (S8 p' j Hp')].
+      rewrite Hreqs. apply (reqs_same_req st i c); [exact Hc | reflexivity].
+    - rewrite Hlog. unfold unprocessed in *. rewrite Hppc, Hscr. exact S9.
+  Qed.
+
+  (* ---------------------------------------------------------------- every step *)
+
+  Lemma not_registered_not_in st i c :
+    RegInv st -> nth_error (g_reqs st) i = Some c -> linearized c = false -> ~ In i (g_order st).
+  Proof.
+    intros R Hc Hl Hin. apply (ri_order _ R) in Hin. destruct Hin as [c0 [Hc0 Hreg]].
+    rewrite Hc in Hc0. inversion Hc0; subst c0. unfold registered in Hreg. rewrite Hl in Hreg. discriminate.
+  Qed.
+
+  Lemma ser_step_prod st : LockInv st -> RegInv st -> SerInv st -> SerInv (prod_step true first kept st).
+  Proof.
+    intros L R S. unfold prod_step.
+    destruct (g_ppc st) as [|b|b|evs|e todo evs|e k todo evs] eqn:Hpc.
+    - destruct (g_script st) as [|b rest] eqn:Hscr; [exact S|].
+      apply (ser_same st); try reflexivity; try exact S.
+      + unfold inflight. simp_st. rewrite Hpc. reflexivity.
+      + unfold pend_of. simp_st. rewrite Hpc. reflexivity.
+      + unfold unprocessed. simp_st. rewrite Hpc, Hscr. reflexivity.
+      + intros i _. auto.
+      + intros i c Hc. exists c. auto.
+    - destruct (Nat.eqb (g_readers st) 0); [|exact S].
+      apply (ser_same st); try reflexivity; try exact S.
+      + unfold inflight. simp_st. rewrite Hpc. reflexivity.
+      + unfold pend_of. simp_st. rewrite Hpc. reflexivity.
+      + unfold unprocessed. simp_st. rewrite Hpc. reflexivity.
+      + intros i _. auto.
+      + intros i c Hc. exists c. auto.
+    - rewrite (hub_push_live first kept (g_hub st) b). apply (ser_block st _ b S Hpc); reflexivity.
+    - destruct evs as [|e evs].
+      + apply (ser_same st); try reflexivity; try exact S.
+        * unfold inflight. simp_st. rewrite Hpc. reflexivity.
+        * unfold pend_of. simp_st. rewrite Hpc. reflexivity.
+        * unfold unprocessed. simp_st. rewrite Hpc. reflexivity.
+        * intros i _. auto.
+        * intros i c Hc. exists c. auto.
+      + destruct (mutex_free true st); [|exact S]. apply (ser_snapshot st _ e evs R S Hpc); reflexivity.
+    - destruct todo as [|k todo].
+      + apply (ser_fan_end st _ e evs R S Hpc); reflexivity.
+      + (* the subscription pushed to exists, is registered and not dropped *)
+        assert (Hw : g_writer st = true) by (apply writer_of_pc; [exact L | unfold in_write_cs; rewrite Hpc; reflexivity]).
+        pose proof (ri_fan _ R) as Hfan. unfold fan_ok in Hfan. rewrite Hpc in Hfan. destruct Hfan as [_ Hsub].
+        assert (Hk : In k (g_subs st)) by (apply Hsub; left; reflexivity).
+        rewrite (ri_subs _ R) in Hk. apply filter_In in Hk. destruct Hk as [Hko Hkk].
+        apply (ri_order _ R) in Hko. destruct Hko as [c [Hc Hreg]].
+        unfold keeps in Hkk. rewrite Hpc, orb_false_r in Hkk. apply negb_true_iff in Hkk.
+        unfold registered in Hreg. apply andb_true_iff in Hreg. destruct Hreg as [_ Hsome].
+        rewrite Hc. destruct (r_sub c) as [s|] eqn:Hs; [|discriminate].
+        assert (Hd : ms_dropped s = false) by (unfold sub_at in Hkk; rewrite Hc, Hs in Hkk; exact Hkk).
+        destruct (N.of_nat (length (ms_queue s)) =? ms_cap s) eqn:Hfull.
+        * apply (ser_push st _ e k todo evs c s R S Hpc Hc Hs); try reflexivity;
+            [simp_st; unfold sub_push; rewrite Hd, Hfull; reflexivity
+            | unfold unprocessed; simp_st; rewrite Hpc; reflexivity].
+        * apply (ser_push st _ e k todo evs c s R S Hpc Hc Hs); try reflexivity;
+            [simp_st; unfold sub_push; rewrite Hd, Hfull; reflexivity
+            | unfold unprocessed; simp_st; rewrite Hpc; reflexivity].
+    - destruct (mutex_free true st); [|exact S].
+      apply (ser_same st); try reflexivity; try exact S.
+      + unfold inflight. simp_st. rewrite Hpc. reflexivity.
+      + unfold pend_of. simp_st. rewrite Hpc. reflexivity.
+      + unfold unprocessed. simp_st. rewrite Hpc. reflexivity.
+      + intros i _. auto.
+      + intros i c Hc. exists c. auto.
+  Qed.
+
+  Lemma ser_step_req st i : LockInv st -> RegInv st -> SerInv st -> SerInv (req_step true st i).
+  Proof.
+    intros L R S. unfold req_step. destruct (nth_error (g_reqs st) i) as [c|] eqn:Hc; [|exact S].
+    pose proof (ri_rec _ R i c Hc) as Hrec. unfold rec_ok in Hrec.
+    destruct (r_pc c) as [| | | |snap| | |] eqn:Hpc.
+    - destruct (negb (g_writer st) && negb (g_wpend st)); [|exact S].
+      apply (ser_rec st _ i c (set_rpc c RLocked) S Hc); try reflexivity. auto.
+    - assert (Hnw : in_write_cs st = false)
+        by (apply (read_cs_not_writer st i c L Hc); unfold in_read_cs; rewrite Hpc; reflexivity).
+      destruct (request_burst (g_hub st) (r_req c)) as [burst|] eqn:Hb.
+      + eapply (ser_rec st _ i c _ S Hc); try reflexivity.
+        intros Hin. exfalso. apply (not_registered_not_in st i c R Hc); [unfold linearized; rewrite Hpc; reflexivity | exact Hin].
+      + apply (ser_refused st _ i c S Hc Hnw Hb); reflexivity.
+    - destruct (g_mutex st); [exact S|].
+      apply (ser_rec st _ i c (set_rpc c RMutex) S Hc); try reflexivity. auto.
+    - apply (ser_rec st _ i c (set_rpc c (RRead (g_subs st))) S Hc); try reflexivity. auto.
+    - assert (Hnw : in_write_cs st = false)
+        by (apply (read_cs_not_writer st i c L Hc); unfold in_read_cs; rewrite Hpc; reflexivity).
+      destruct Hrec as [burst [Hb [Hs Hg]]].
+      apply (ser_append st _ i c (set_rpc c RWritten) burst S Hc Hnw Hb Hs Hg); reflexivity.
+    - apply (ser_rec st _ i c (set_rpc c RUnlocking) S Hc); try reflexivity. auto.
+    - apply (ser_rec st _ i c (set_rpc c RDone) S Hc); try reflexivity. auto.
+    - exact S.
+  Qed.
+
+  Lemma ser_step_cons st i : RegInv st -> SerInv st -> SerInv (cons_step st i).
+  Proof.
+    intros R S. destruct (cons_step_cases st i) as [E|[c [s [x [q [Hc [Hpc [Hs [Hq E]]]]]]]]]; rewrite E; [exact S|]. clear E.
+    destruct (inflight st) as [[e todo]|] eqn:Hinf.
+    - destruct (memb i todo) eqn:Hm.
+      + apply (ser_recv_log st _ i c s x q R S Hc Hpc Hs Hq); try reflexivity.
+        intros e' todo' Hi. rewrite Hinf in Hi. inversion Hi; subst. exact Hm.
+      + apply (ser_recv_tail st _ i c s x q e todo R S Hc Hpc Hs Hq Hinf Hm); reflexivity.
+    - apply (ser_recv_log st _ i c s x q R S Hc Hpc Hs Hq); try reflexivity. intros e' todo' Hi. rewrite Hinf in Hi. discriminate.
+  Qed.
+
+  Definition AllInv (st : cstate) : Prop := LockInv st /\ RegInv st /\ SerInv st.
+
+  Lemma all_step st t : AllInv st -> AllInv (cstep true first kept st t).
+  Proof.
+    intros [L [R S]]. split; [apply lock_step, L|]. split; [apply reg_step; assumption|].
+    destruct t as [|i|i]; cbn [cstep].
+    - apply ser_step_prod; assumption.
+    - apply ser_step_req; assumption.
+    - apply ser_step_cons; assumption.
+  Qed.
+
+  Lemma all_run sched : forall st, AllInv st -> AllInv (crun true first kept st sched).
+  Proof. induction sched as [|t sched IH]; intros st H; [exact H|]. apply IH, all_step, H. Qed.
+
+  Lemma all_init reqs : AllInv (cinit h0 script reqs).
+  Proof. split; [apply lock_init|]. split; [apply reg_init | apply ser_init]. Qed.
+
+  Lemma all_reachable reqs sched : AllInv (crun true first kept (cinit h0 script reqs) sched).
+  Proof. apply all_run, all_init. Qed.
+
 End Refine.
